@@ -122,7 +122,14 @@ func (s *Solver) BeginPath() {
 	s.apps = nil
 }
 
-func isBaseApp(t *Term) bool { return (t.op == OpPred || t.op == OpFn32) && t.a.op == OpSym }
+var fnCegar = os.Getenv("GOSX_FNCEGAR") != ""
+
+func isBaseApp(t *Term) bool {
+	if t.op == OpFn32 && fnCegar {
+		return false
+	}
+	return (t.op == OpPred || t.op == OpFn32) && t.a.op == OpSym
+}
 
 func baseKey(t *Term) string { return t.name + "|" + t.a.name }
 
@@ -156,7 +163,7 @@ func (s *Solver) AddBase(apps []*Term) {
 			s.send(unicodeFullSMT(t.name))
 		}
 		s.baseApps[baseKey(t)] = true
-		s.send(fmt.Sprintf("(declare-const %s %s)\n(assert (= %s (%s |%s|)))\n", smtRef(t), sortOf(t.w), smtRef(t), t.name, sym.name))
+		s.send(fmt.Sprintf("(declare-const %s %s)\n(assert (= %s (|%s| |%s|)))\n", smtRef(t), sortOf(t.w), smtRef(t), t.name, sym.name))
 	}
 }
 
